@@ -189,3 +189,36 @@ func VerifTenantShardDirectories() {
 		os.RemoveAll(root)
 	}
 }
+
+// ---- C12 (sequential): after a collection deletion - of a loaded or an unloaded shard - a new
+// request loads the shard again and is served on an open shard; the deleted directory is gone in
+// between.
+func VerifShardReloadAfterDelete() {
+	root := verifRootDir()
+	sm := NewShardManager(ShardManagerConfig{RootDir: root, ShardTimeout: 30, MaxCacheSize: -1})
+	col := models.Collection{UserId: "u", Id: "c"}
+	loadedBefore := nondetBool()
+	if loadedBefore {
+		vassume(sm.DoWithShard(col, "s1", func(s *shard.Shard) error { return nil }) == nil)
+	}
+	deleted, err := sm.DeleteCollectionShards(col)
+	vcover("reached")
+	vassert("delete-ok", err == nil)
+	if loadedBefore {
+		vassert("the-loaded-shard-is-reported-deleted", len(deleted) == 1 && deleted[0] == "s1")
+		vassert("shard-directory-removed", !vdirexists(root+"/userCollections/u/c/s1"))
+	}
+	for attempt := 0; attempt < 2; attempt++ {
+		ran := false
+		err = sm.DoWithShard(col, "s1", func(s *shard.Shard) error {
+			ran = true
+			vassert("request-after-deletion-runs-on-an-open-shard", vhandleopen(s))
+			return nil
+		})
+		vassert("request-after-deletion-loads-the-shard-again", err == nil && ran)
+	}
+	if !vsymbolic() {
+		sm.DeleteCollectionShards(col)
+		os.RemoveAll(root)
+	}
+}
